@@ -266,6 +266,10 @@ theorem RInv.step {s s' : State} {e : Ev} (hr : RInv s) (hk : KInv s) (hi : HInv
     intro t m hp0; simp only
     rw [upd2_ne _ _ (by intro x; exact hk.user_ne_lib hk0 hp hp0 x.2.symm)]; exact ⟨hp0, rfl⟩
   | getLocal t' k => obtain ⟨n, _, _, _, _, _, rfl⟩ := getLocal_ok hs; exact ⟨hr.k0n, hr.k0w, hr.tF⟩
+  | createFail a => obtain ⟨_, _, rfl⟩ := createFail_ok hs; exact ⟨hr.k0n, hr.k0w, hr.tF⟩
+  | joinFail a h => obtain ⟨_, _, _, _, _, rfl⟩ := joinFail_ok hs; exact ⟨hr.k0n, hr.k0w, hr.tF⟩
+  | tlsFail t' k g => obtain ⟨_, _, _, _, _, rfl⟩ := tlsFail_ok hs; exact ⟨hr.k0n, hr.k0w, hr.tF⟩
+  | currentFail t' => obtain ⟨_, _, rfl⟩ := currentFail_ok hs; exact ⟨hr.k0n, hr.k0w, hr.tF⟩
 
 /-- the handle record after the library key's destructor took the thread's own reference -/
 def afterOwn (x : Handle) : Handle :=
@@ -490,6 +494,16 @@ theorem SJInv.step {s s' : State} {e : Ev} (hj : SJInv s) (hs : step s e = .ok s
   | setLocal t k v => obtain ⟨n, _, _, _, _, _, rfl⟩ := setLocal_ok hs; exact hj.frame rfl (Nat.le_refl _) (fun _ _ => rfl)
   | replaceLocal t k v => obtain ⟨n, _, _, _, _, _, rfl⟩ := replaceLocal_ok hs; exact hj.frame rfl (Nat.le_refl _) (fun _ _ => rfl)
   | getLocal t k => obtain ⟨n, _, _, _, _, _, rfl⟩ := getLocal_ok hs; exact hj.frame rfl (Nat.le_refl _) (fun _ _ => rfl)
+  | createFail a =>
+    obtain ⟨_, _, rfl⟩ := createFail_ok hs
+    refine hj.frame rfl (Nat.le_succ _) (fun h hh => ?_)
+    simp only; rw [upd_ne _ _ (by omega)]
+  | joinFail a h => obtain ⟨_, _, _, _, _, rfl⟩ := joinFail_ok hs; exact hj.frame rfl (Nat.le_refl _) (fun _ _ => rfl)
+  | tlsFail t k g => obtain ⟨_, _, _, _, _, rfl⟩ := tlsFail_ok hs; exact hj.frame rfl (Nat.le_refl _) (fun _ _ => rfl)
+  | currentFail t =>
+    obtain ⟨_, _, rfl⟩ := currentFail_ok hs
+    refine hj.frame rfl (Nat.le_succ _) (fun h hh => ?_)
+    simp only; rw [upd_ne _ _ (by omega)]
 
 theorem Reach.rinv {s : State} (h : Reach s) : RInv s ∧ SJInv s := by
   induction h with
@@ -659,6 +673,14 @@ theorem refine_join {s s' : State} {sp : S} {a h : Nat} (ab : Abs s sp)
       exact this
     · simp [obsM, PV.UThreadSpec.join, hsp, absH, hj, sortD]
 
+theorem refine_joinFail {s s' : State} {sp : S} {a h : Nat} (ab : Abs s sp)
+    (hs : step s (.joinFail a h) = .ok s') :
+    Abs s' sp ∧ obsM s (.joinFail a h) s' = { ret := [Sp.join sp h], live := liveOf s' } := by
+  obtain ⟨_, hlt, hw, hf, hj, rfl⟩ := joinFail_ok hs
+  have hsp : sp.handles[h]? = some (absH (s.hdl h)) := by rw [ab.aH h, hOf, if_pos hlt]
+  refine ⟨ab.same (fun _ => rfl) rfl (fun _ => rfl) (fun _ => rfl) (fun _ => rfl) (fun _ _ _ => rfl) (fun _ => rfl), ?_⟩
+  simp [obsM, PV.UThreadSpec.join, hsp, absH, hj, sortD]
+
 theorem refine_getLocal {s s' : State} {sp : S} {t k : Nat} (ab : Abs s sp)
     (hs : step s (.getLocal t k) = .ok s') :
     Abs s' sp ∧ obsM s (.getLocal t k) s' = { ret := [(sp.cell t k : Int)], live := liveOf s' } := by
@@ -733,6 +755,55 @@ theorem refine_createBegin {s s' : State} {sp : S} {a : Nat} {j n : Bool} (hk : 
     by_cases e : t = s.nT
     · subst e; simp
     · rw [upd_ne _ _ e, ← ab.aO t]; simp [e]
+
+/-- both sides when a block takes the next handle id and is released at once -/
+theorem refine_allocFreed {s : State} {sp : S} (e : Ev) (hi : HInv s) (ab : Abs s sp)
+    (he : match e with | .createFail _ => True | .currentFail _ => True | _ => False) :
+    let s' : State := { s with nH := s.nH + 1, hdl := upd s.hdl s.nH { freed := true, written := true }, freeLog := s.freeLog ++ [s.nH] }
+    Abs s' (createFailed sp).1 ∧ obsM s e s' = { live := liveOf s', freed := [(createFailed sp).2] } := by
+  intro s'
+  have hnewH := hi.hB s.nH (Nat.le_refl _)
+  refine ⟨?_, ?_⟩
+  · refine ⟨?_, by simp [createFailed, ab.aT, s'], ?_, ?_, ab.aK, ab.aC, ab.aF⟩
+    · intro h
+      simp only [createFailed]
+      rw [getElem?_snoc, ab.hlen, ab.aH h]
+      unfold hOf; simp only [s']
+      by_cases e : h < s.nH
+      · rw [if_pos e, if_pos e, if_pos (by omega), upd_ne _ _ (by omega)]
+      · rw [if_neg e]; try rw [if_neg e]
+        by_cases e' : h = s.nH
+        · subst e'; simp [absH]
+        · rw [if_neg e', if_neg (by omega)]
+    · intro t
+      rw [show lookup (createFailed sp).1.threadHandle t = lookup sp.threadHandle t from rfl, ab.aS t]
+      symm
+      exact selfOf_thr_eq t rfl (fun _ => Iff.rfl) (fun _ => ⟨rfl, fun _ _ => rfl⟩)
+    · intro t
+      rw [show (createFailed sp).1.ours = sp.ours from rfl, ab.aO t]
+  · cases e <;> simp at he <;> simp [obsM, createFailed, ab.hlen, sortD, s']
+
+theorem refine_createFail {s s' : State} {sp : S} {a : Nat} (hi : HInv s) (ab : Abs s sp)
+    (hs : step s (.createFail a) = .ok s') :
+    Abs s' (createFailed sp).1 ∧
+    obsM s (.createFail a) s' = { live := liveOf s', freed := [(createFailed sp).2] } := by
+  obtain ⟨_, _, rfl⟩ := createFail_ok hs
+  exact refine_allocFreed (.createFail a) hi ab trivial
+
+theorem refine_currentFail {s s' : State} {sp : S} {t : Nat} (hi : HInv s) (ab : Abs s sp)
+    (hs : step s (.currentFail t) = .ok s') :
+    Abs s' (createFailed sp).1 ∧
+    obsM s (.currentFail t) s' = { live := liveOf s', freed := [(createFailed sp).2] } := by
+  obtain ⟨_, _, rfl⟩ := currentFail_ok hs
+  exact refine_allocFreed (.currentFail t) hi ab trivial
+
+theorem refine_tlsFail {s s' : State} {sp : S} {t k : Nat} {g : Bool} (ab : Abs s sp)
+    (hs : step s (.tlsFail t k g) = .ok s') :
+    Abs s' sp ∧ obsM s (.tlsFail t k g) s' = { ret := if g then [(sp.cell t k : Int)] else [], live := liveOf s' } := by
+  obtain ⟨_, hk0, _, hwf, hp, rfl⟩ := tlsFail_ok hs
+  refine ⟨ab.same (fun _ => rfl) rfl (fun _ => rfl) (fun _ => rfl) (fun _ => rfl) (fun _ _ _ => rfl) (fun _ => rfl), ?_⟩
+  have : sp.cell t k = 0 := by rw [ab.aC t k hk0, cellOf, hwf]; simp [valueOf, hp]
+  cases g <;> simp [obsM, this, sortD]
 
 theorem refine_localNew {s s' : State} {sp : S} {a : Nat} {nf : Bool} (hk : KInv s) (hi : HInv s) (ab : Abs s sp)
     (hs : step s (.localNew a nf) = .ok s') :
@@ -1400,6 +1471,10 @@ theorem refine_step {s s' : State} {sp : S} {e : Ev} (hr : Reach s) (ab : Abs s 
   | setLocal t k v => obtain ⟨a, o⟩ := refine_setLocal hk ab hs; exact ⟨a, by rw [o]; simp [specStep, a.live]⟩
   | replaceLocal t k v => obtain ⟨a, o⟩ := refine_replaceLocal hk ab hs; exact ⟨a, by rw [o]; simp [specStep, a.live]⟩
   | getLocal t k => obtain ⟨a, o⟩ := refine_getLocal ab hs; exact ⟨a, by rw [o]; simp [specStep, a.live]⟩
+  | createFail a' => obtain ⟨a, o⟩ := refine_createFail hi ab hs; exact ⟨a, by rw [o]; simp [specStep, a.live]⟩
+  | joinFail a' h => obtain ⟨a, o⟩ := refine_joinFail ab hs; exact ⟨a, by rw [o]; simp [specStep, a.live]⟩
+  | tlsFail t k g => obtain ⟨a, o⟩ := refine_tlsFail ab hs; exact ⟨a, by rw [o]; simp [specStep, a.live]⟩
+  | currentFail t => obtain ⟨a, o⟩ := refine_currentFail hi ab hs; exact ⟨a, by rw [o]; simp [specStep, a.live]⟩
 
 /-- over any history: as long as the machine accepts the events, the reference gives the same answers -/
 theorem refine_run : ∀ (es : List Ev) {s : State} {sp : S}, Reach s → Abs s sp →
